@@ -165,16 +165,24 @@ def execute(case):
         fc = st.fs.foreign_closed()
         if fc:
             res.violations.append(V('C10.caller-stream-closed', 'defragment closed caller streams: %r' % fc))
-        if case['dst_kind'] == 'realpath' and not inplace:
-            with open(dest, 'rb') as f:
-                out = f.read()
-            iout = open(dest + '_index', 'rb').read() if case['index'] else None
-        elif inplace:
-            out = st.fs.get('src.tdms')
-            iout = st.fs.get('src.tdms_index') if case['index'] else None
-        else:
-            out = st.fs.get('dst.tdms')
-            iout = st.fs.get('dst.tdms_index') if case['index'] else None
+        try:
+            if case['dst_kind'] == 'realpath' and not inplace:
+                with open(dest, 'rb') as f:
+                    out = f.read()
+                iout = None
+                if case['index']:
+                    with open(dest + '_index', 'rb') as f:
+                        iout = f.read()
+            elif inplace:
+                out = st.fs.get('src.tdms')
+                iout = st.fs.get('src.tdms_index') if case['index'] else None
+            else:
+                out = st.fs.get('dst.tdms')
+                iout = st.fs.get('dst.tdms_index') if case['index'] else None
+        except (KeyError, FileNotFoundError) as exc:
+            res.violations.append(V('C10.destination-missing', 'defragment returned normally but the destination%s does not exist: %s' % (
+                ' (or its index file)' if case['index'] else '', exc)))
+            return res
         try:
             got = content(lib.TdmsFile.read(io.BytesIO(out), raw_timestamps=True))
         except Exception as exc:
